@@ -985,11 +985,13 @@ func (h *headReader) Read(ctx context.Context, out frame.Frame) (n int, err erro
 	if h.n <= 0 {
 		return 0, sliceio.EOF
 	}
+	// Read no more than the rows still wanted, so that only rows that are
+	// returned are written to the destination.
+	if h.n < out.Len() {
+		out = out.Slice(0, h.n)
+	}
 	n, err = h.reader.Read(ctx, out)
 	h.n -= n
-	if h.n < 0 {
-		n -= -h.n
-	}
 	return
 }
 
